@@ -1829,7 +1829,7 @@ def main(chk: C.Check, build: C.Build) -> None:
         "tier_proved": "kernel (unescape, string scanners, parse-site denotation, numeric literals, json encoder)",
     })
     chk.assumptions += [
-        "lone surrogates are excluded from all strings (DESIGN 4.1); the model says UnicodeEncodeError there",
+        "lone surrogates are excluded from generated template sources (DESIGN 4.1); unescape() itself is tied on a few of them",
         "CPython float() is a parameter: the model gives the exact decimal m*10^e handed to it",
         "the ${...} sub-expression scanner is a parameter of the template-string scanner; the tie instantiates it with whitespace-separated ASCII words",
         "MAX_STR_INT equals CPython's int max str digits (the default, 4300)",
